@@ -100,6 +100,45 @@ def stopped_world_scripts(rng, tier):
     return out
 
 
+def buffered_at_disconnect_scripts(rng, tier):
+    """the session ends while the client still holds a buffered mutate message (it arrived before the update message it
+    depends on); after the reconnect nothing of it may be applied or acknowledged"""
+    out = []
+    for i in range(30 if tier == "quick" else 1200):
+        track = i % 2
+        lines = ["cfg policy=all auth=none track=%d nclients=1 timeout=10000" % track, "start", "sframe 0 10", "connect 0 1200"]
+        lines += ["sop spawn 1 1 0=%d 1=%d" % (rng.randrange(50), rng.randrange(50)), "sframe 1 16", "deliver 0 s2c 0 all", "cframe 0", "deliver 0 c2s 0 all"]
+        nxt = 2
+        for _ in range(rng.randrange(1, 3)):
+            lines.append("sop mutate 1 %d=%d" % (rng.randrange(2), rng.randrange(100, 200)))
+            lines.append("sop spawn %d 1 0=%d" % (nxt, rng.randrange(50)))
+            nxt += 1
+            lines.append("sframe 1 16")
+            lines += ["deliver 0 s2c 1 all", "cframe 0"]            # the mutate message overtakes its update message
+        lines += ["disconnect 0", "cframe 0"]
+        if rng.random() < 0.4:
+            lines += ["stop", "sframe 0 10", "sop mutate 1 0=%d" % rng.randrange(300, 400), "sframe 0 10", "start", "sframe 0 10"]
+        lines.append("connect 0 1200")
+        for _ in range(rng.randrange(1, 4)):
+            if rng.random() < 0.6:
+                lines.append("sop mutate 1 %d=%d" % (rng.randrange(2), rng.randrange(200, 300)))
+            if rng.random() < 0.4:
+                lines.append("sop spawn %d 1 0=1" % nxt)
+                nxt += 1
+            lines.append("sframe 1 16")
+            lines += ["deliver 0 s2c 0 all"]
+            if rng.random() < 0.5:
+                lines.append("drop 0 s2c 1 all")
+            else:
+                lines.append("deliver 0 s2c 1 all")
+            lines += ["cframe 0", "deliver 0 c2s 0 all"]
+        meta = dict(connected=[0], events=False)
+        sf = len(lines)
+        lines += gen_scripts.settle_lines(meta)
+        out.append(("buffered-at-disconnect-%d" % i, lines, sf))
+    return out
+
+
 def lazy_backend_scripts(rng, tier):
     """implementation only: the backend collects the server's outgoing messages a frame late, and a client disconnects while
     messages for the others are still queued in RepliconServer: nothing addressed to the remaining clients may be lost"""
@@ -152,7 +191,7 @@ def run(tier, seed, replay):
     kws = [dict(sessions=True), dict(sessions=True, events=True), dict(sessions=True, nclients=3, track=True), dict(sessions=True, auth="proto", nclients=2, events=True),
            dict(sessions=True, events=True, quick_reconnect=0.5, weights=dict(session=0.8)), dict(sessions=True, quick_reconnect=0.5, nclients=2, weights=dict(session=0.8))]
     return sim_check("C09", tier, seed, kws, n_quick=120, n_thorough=12000, oracle_props={"C09", "C01", "C02", "C03"},
-                     custom_scripts=lambda rng, tier: injected(rng, tier) + stopped_world_scripts(rng, tier),
+                     custom_scripts=lambda rng, tier: injected(rng, tier) + stopped_world_scripts(rng, tier) + buffered_at_disconnect_scripts(rng, tier),
                      impl_only_scripts=lazy_backend_scripts, impl_only_label="a backend that collects outgoing messages a frame late while another client disconnects",
                      rule_extra=", plus crash-point enumeration: a disconnect/reconnect or a server stop/start injected at every frame boundary of base scenarios, reconnect after one frame",
                      extra_assumptions=["a reconnect / restart happens after at least one frame of the side concerned (the property's own premise): a session that ends and restarts between two frames "
